@@ -35,39 +35,53 @@ PROPERTY = "C13"
 LEVEL = "exploration"
 RULE = (
     "sched_*: CallableParallelExecution.execute runs harness tasks that block on per-task gates; the case opens the "
-    "gates in the order given by a priority permutation among the min(n_workers, remaining) running tasks, so the "
-    "completion order is chosen by the payload. Every feasible completion order x every vector in "
-    "{ok, ValueError, custom exception}^n_tasks x {one callable per task, one shared callable} x "
-    "{exceptions_to_re_raise empty, (ValueError,)} is enumerated for n_tasks<=3 (quick, plus a seeded slice of "
-    "n_tasks=4; thorough: n_tasks<=5 and every worker count for threads, n_tasks<=4 and <=3 workers for forked "
-    "processes, split by shard); beyond that Hypothesis draws n_tasks<=10, worker counts 1..n_tasks+2, priorities, "
-    "failure vectors (incl. a BaseException subclass), 1-3 callbacks and the re-raise set. Derived oracles draw "
-    "small DOE problems (CustomDOE samples, polynomial objective/constraints, samples raising ValueError, "
-    "n_processes 2-3 vs 1), MDOParallelChain / DiscParallelExecution / DiscParallelLinearization over generated "
-    "polynomial disciplines (threads and processes, per-discipline delays), FirstOrderFD parallel vs serial and "
-    "twin disciplines sharing one MemoryFullCache on inputs with duplicates. "
+    "gates in the order given by a priority permutation among the min(n_workers, remaining) running tasks and waits "
+    "until execute has consumed each result, so the completion order is chosen by the payload. Enumerated: every "
+    "feasible completion order x every worker count x every failure vector x {one callable per task, one shared "
+    "callable} x {exceptions_to_re_raise empty, (ValueError,)}. Quick: threads, n_tasks<=3 with failure vectors in "
+    "{ok, ValueError}^n (all failing subsets) plus a seeded 1/59 slice of the domain {ok, ValueError, custom "
+    "exception}^n for n_tasks in {3, 4}; forked processes, 2 workers, n_tasks in {2, 3}, all failing subsets, the four "
+    "modes taken in turn. Thorough (split by shard): threads n_tasks<=5, every worker count, {ok, ValueError, "
+    "custom}^n; processes n_tasks<=4, <=3 workers. Beyond that Hypothesis draws n_tasks<=10 (processes <=7), worker "
+    "counts 1..n_tasks+2, priorities, failure vectors (incl. a BaseException subclass), 1-3 callbacks (bare callable "
+    "or list), task_submitted_callback and the re-raise set. Derived oracles draw small DOE problems (CustomDOE "
+    "samples incl. repeated ones and a non-empty database, polynomial objective/constraints/observables, samples "
+    "raising ValueError, eval_jac, n_processes 2-3 vs 1; when all samples are distinct the completion order of the "
+    "parallel DOE is gated by the harness as above, otherwise perturbed by per-sample delays of 0-3 ms), "
+    "MDOParallelChain / DiscParallelExecution / DiscParallelLinearization over generated polynomial disciplines "
+    "(threads and processes, per-discipline delays, failing disciplines), FirstOrderFD parallel vs serial "
+    "(f_gradient with component subsets, compute_optimal_step) and twin disciplines sharing one MemoryFullCache on "
+    "inputs with duplicates. "
     "Non-trivial = schedule whose realised completion order differs from the submission order (fault cases: with "
-    ">=1 failing and >=1 succeeding task); derived: >=2 workers and >=2 tasks with unequal delays (DOE fault part: "
-    ">=1 raising and >=1 valid sample). Distinct = structural hash of (back-end, workers, realised order, failure "
-    "vector, mode) resp. of the drawn payload."
+    ">=1 failing and >=1 succeeding task); derived without gates: >=2 workers and >=2 tasks with unequal delays (DOE "
+    "fault part: >=1 raising sample; cache: >=2 tasks with the same input). Distinct = structural hash of (back-end, "
+    "workers, realised order, failure vector, mode) resp. of the drawn payload."
 )
 ASSUMPTIONS = [
     "multiprocessing start method is fork (the platform default); spawn/forkserver are not exercised",
     "task outputs are never None and never exception instances (execute uses both as failure markers)",
     "the pool hands tasks to free workers in submission order; the harness does not rely on it (it counts running "
-    "tasks) but the list of feasible completion orders is derived from it and the realised order is compared with it",
+    "tasks) but the list of feasible completion orders is derived from it and the realised order is compared with it "
+    "(schedules_realised_as_planned / schedules_diverged_from_plan)",
     "the consumption of a failed task's result is observed through the error record 'Failed to execute task indexed i' "
     "logged by execute; if the record is missing the schedule proceeds after a time-out and the case is counted in "
-    "ack_timeouts (0 on the unchanged tree)",
+    "ack_timeouts (0 on the unchanged tree); oracles never depend on it",
+    "a time-out of a harness wait (gate, start, leftover worker) is a harness error; a gemseo call that has not "
+    "returned 45 s after every task was released without any harness time-out (or that involves no gate at all) is "
+    "reported as a violation of sub-oracle 'termination'",
     "a shared MemoryFullCache is used with tolerance 0 and is_memory_shared=True",
     "DOE functions only raise ValueError (the exception the sequential DOE loop documents as a failed sample)",
+    "the generated functions copy their input to a contiguous array, so that parallel (unpickled) and sequential "
+    "(strided view) evaluations perform the same floating-point operations and can be compared bit for bit",
+    "one discipline object executed on several inputs is only used with the process back-end (documented restriction)",
+    "finite differences in parallel are only used with processes (with threads gemseo rejects the repeated worker)",
 ]
 
 # --------------------------------------------------------------------------- time-outs (harness errors, never oracles)
 GATE_TIMEOUT = 60.0      # a task waiting for its gate
 START_TIMEOUT = 30.0     # the controller waiting for min(workers, remaining) running tasks
 ACK_TIMEOUT = 3.0        # the controller waiting for execute to consume a released result
-EXEC_TIMEOUT = 60.0      # the case waiting for execute to return once every gate is open
+EXEC_TIMEOUT = 45.0      # the case waiting for execute to return once every gate is open
 JOIN_TIMEOUT = 10.0      # leftover worker processes
 
 SUBPROCESS_NAME = "subprocess"  # name given by gemseo to its workers
@@ -220,8 +234,16 @@ def _reap_workers() -> int:
     return alive
 
 
+_ZOMBIES = set()  # worker threads of a call that never returned (reported as a violation); they cannot be killed
+
+
 def _worker_threads():
-    return [t for t in threading.enumerate() if t.name == SUBPROCESS_NAME and t.is_alive()]
+    return [t for t in threading.enumerate() if t.name == SUBPROCESS_NAME and t.is_alive() and t.ident not in _ZOMBIES]
+
+
+def _give_up_on_threads():
+    for t in _worker_threads():
+        _ZOMBIES.add(t.ident)
 
 
 def run_gated(call, board: _Board, n: int, n_workers: int, prio, acks, stops, use_threading: bool, what: str):
@@ -282,13 +304,19 @@ def run_gated(call, board: _Board, n: int, n_workers: int, prio, acks, stops, us
         sys.stderr = old_stderr
         leftover = 0 if use_threading else _reap_workers()
         if use_threading:
+            if hung:
+                _give_up_on_threads()
             for t in _worker_threads():
                 t.join(JOIN_TIMEOUT)
             leftover = len(_worker_threads())
     if board.flags[0]:
         raise HarnessError(f"a task waited {GATE_TIMEOUT}s for its gate: {what}")
+    if hung and (problems or len(released) < n):
+        raise HarnessError(f"the call did not return within {EXEC_TIMEOUT}s and the schedule could not be driven ({problems}): {what}")
     if hung:
-        raise HarnessError(f"the call did not return within {EXEC_TIMEOUT}s after all gates were opened: {what}")
+        # every task was seen running and released by the controller, no wait of the harness timed out
+        box["hung"] = True
+        leftover = 0
     return box, released, problems, ack_timeouts, leftover
 
 
@@ -334,6 +362,9 @@ def case_sched(p, ctx):
 
     n_workers = max(1, min(w, n)) if n else 0
     box, released, problems, ack_timeouts, leftover = run_gated(call, board, n, n_workers, prio, acks, stops, use_threading, str(p))
+
+    ctx.check(not box.get("hung"), "termination", f"execute did not return within {EXEC_TIMEOUT}s after every task had been released "
+              "and no harness wait had timed out", released=released)
 
     # ---- classification
     n_fail = sum(1 for f in fail if f)
@@ -391,7 +422,7 @@ def case_sched(p, ctx):
         if exc is None:
             missing = [i for i in range(n) if not fail[i] and i not in seen]
             ctx.check(not missing, "callback", f"callback {j} never called for successful tasks {missing}", released=released)
-        else:
+        elif ack_timeouts == 0:
             # execute stopped at the first re-raised failure: everything consumed before it was notified
             before = released[: min(released.index(i) for i in failing_reraised)] if all(i in released for i in failing_reraised) else []
             missing = [i for i in before if not fail[i] and i not in seen]
@@ -485,7 +516,7 @@ def run(ctx):
             "sched_threads_slice", _slice(sched_domain("thread", 4, None, min_n=3), 59, ctx.seed), case_sched))
     else:
         ok = _timed(ctx, "sched_threads_exhaustive", lambda: ctx.enumerate("sched_threads_exhaustive", shard(sched_domain("thread", 5, None)), case_sched))
-    ctx.extra["exhaustive_threads_max_tasks"] = 3 if quick else 5
+    ctx.extra["max_tasks_exhaustive_threads"] = 3 if quick else 5
     ctx.extra["exhaustive_threads_complete"] = bool(ok)
     _timed(ctx, "sched_threads_random", lambda: ctx.drive("sched_threads_random", sched_payloads("thread"), case_sched, quick=200, thorough=1500))
     # ---- forked processes
@@ -495,15 +526,15 @@ def run(ctx):
     else:
         domain = shard(sched_domain("process", 4, 3))
     ok = _timed(ctx, "sched_processes_exhaustive", lambda: ctx.enumerate("sched_processes_exhaustive", domain, case_sched))
-    ctx.extra["exhaustive_processes_max_tasks"] = 3 if quick else 4
+    ctx.extra["max_tasks_exhaustive_processes"] = 3 if quick else 4
     ctx.extra["exhaustive_processes_complete"] = bool(ok)
     _timed(ctx, "sched_processes_random", lambda: ctx.drive("sched_processes_random", sched_payloads("process", max_n=7), case_sched, quick=25, thorough=150))
     # ---- derived equivalences (each with its own drive: one defect does not hide the others)
-    _timed(ctx, "disc", lambda: ctx.drive("disc", disc_payloads(), case_disc, quick=50, thorough=500))
-    _timed(ctx, "chain", lambda: ctx.drive("chain", chain_payloads(), case_chain, quick=20, thorough=250))
-    _timed(ctx, "doe", lambda: ctx.drive("doe", doe_payloads(), case_doe, quick=25, thorough=250))
+    _timed(ctx, "disc", lambda: ctx.drive("disc", disc_payloads(), case_disc, quick=60, thorough=500))
+    _timed(ctx, "chain", lambda: ctx.drive("chain", chain_payloads(), case_chain, quick=25, thorough=250))
+    _timed(ctx, "doe", lambda: ctx.drive("doe", doe_payloads(), case_doe, quick=30, thorough=250))
     _timed(ctx, "fd", lambda: ctx.drive("fd", fd_payloads(), case_fd, quick=20, thorough=200))
-    _timed(ctx, "cache", lambda: ctx.drive("cache", cache_payloads(), case_cache, quick=30, thorough=300))
+    _timed(ctx, "cache", lambda: ctx.drive("cache", cache_payloads(), case_cache, quick=40, thorough=300))
 
 
 # =========================================================================== derived equivalences
@@ -521,7 +552,7 @@ def poly_value(out, sizes, data):
     """Reference value of one output spec on a dict name -> 1-D array."""
     v = np.array(out["c"], dtype=float) / 2
     for name, blocks in out["terms"].items():
-        x = np.asarray(data[name], dtype=float)
+        x = np.array(data[name], dtype=float)  # contiguous copy: the summation order must not depend on the strides of the caller
         v = v + (np.array(blocks["a"], dtype=float) @ x + np.array(blocks["b"], dtype=float) @ (x * x)) / 2
     return v
 
@@ -530,7 +561,7 @@ def poly_jac(out, name, sizes, data):
     """Reference Jacobian block d out / d name."""
     if name not in out["terms"]:
         return np.zeros((out["size"], sizes[name]))
-    x = np.asarray(data[name], dtype=float)
+    x = np.array(data[name], dtype=float)
     blocks = out["terms"][name]
     return (np.array(blocks["a"], dtype=float) + 2 * np.array(blocks["b"], dtype=float) * x[None, :]) / 2
 
@@ -639,8 +670,8 @@ class _Quiet:
         return False
 
 
-def _run_with_timeout(fn, what: str):
-    """Run a gemseo call in a helper thread so that a dead-lock becomes a HarnessError."""
+def _run_with_timeout(fn, what: str, ctx=None):
+    """Run a gemseo call that involves no harness gate in a helper thread, so that a call that never returns is reported."""
     box = {}
 
     def target():
@@ -653,6 +684,9 @@ def _run_with_timeout(fn, what: str):
     thread.start()
     thread.join(EXEC_TIMEOUT)
     if thread.is_alive():
+        _give_up_on_threads()
+        if ctx is not None:
+            ctx.fail("termination", f"{what} did not return within {EXEC_TIMEOUT}s (nothing in it waits for the harness)")
         raise HarnessError(f"{what} did not return within {EXEC_TIMEOUT}s")
     if "exc" in box:
         raise box["exc"]
@@ -697,7 +731,7 @@ def case_disc(p, ctx):
             par = DiscParallelLinearization(discs, n_processes=p["w"], use_threading=use_threading)
         else:
             par = DiscParallelExecution(discs, n_processes=p["w"], use_threading=use_threading)
-        out = _run_with_timeout(lambda: par.execute(inputs, exec_callback=callbacks), "parallel discipline execution")
+        out = _run_with_timeout(lambda: par.execute(inputs, exec_callback=callbacks), "parallel discipline execution", ctx)
     ctx.cls(f"disc:{p['mode']}:{p['back']}", "disc:one_discipline" if p["one_disc"] else "disc:one_discipline_per_input",
             "disc:with_failure" if any(fails) else "disc:no_failure")
     ctx.check(isinstance(out, list) and len(out) == n, "disc_positional", f"{type(par).__name__}.execute returned {len(out)} results for {n} inputs",
@@ -715,6 +749,7 @@ def case_disc(p, ctx):
                 serial = twin.linearize(inputs[i])
                 ctx.check(o["name"] in out[i], "disc_positional", f"Jacobian {i} has no row {o['name']}: {sorted(out[i])}")
                 for nm in spec["ins"]:
+                    ctx.check(nm in out[i][o["name"]], "disc_positional", f"Jacobian {i} has no block d{o['name']}/d{nm}")
                     got = _dense(out[i][o["name"]][nm])
                     ctx.check(_same(got, poly_jac(o, nm, sizes, inputs[i]), exact=False), "disc_positional",
                               f"parallel d{o['name']}/d{nm} of task {i} differs from the closed form", got=got)
@@ -733,7 +768,8 @@ def case_disc(p, ctx):
                           f"{discs[i].name}.io.data[{o['name']}] is not the output of its own task", got=discs[i].io.data.get(o["name"]))
                 if lin:
                     for nm in spec["ins"]:
-                        ctx.check(_same(_dense(discs[i].jac[o["name"]][nm]), poly_jac(o, nm, sizes, inputs[i]), exact=False), "disc_local_data",
+                        block = (discs[i].jac or {}).get(o["name"], {}).get(nm)
+                        ctx.check(block is not None and _same(_dense(block), poly_jac(o, nm, sizes, inputs[i]), exact=False), "disc_local_data",
                                   f"{discs[i].name}.jac[{o['name']}][{nm}] is not the Jacobian of its own task")
     for j, entries in enumerate(log):
         idx = sorted(i for i, _ in entries)
@@ -766,7 +802,7 @@ def case_chain(p, ctx):
         twins = _build_discs(specs, sizes)
         for which in ("x", "x2"):  # two executions: the second one must not see results of the first
             x = {k: v for k, v in _arrays(p[which]).items() if k in used}
-            data = _run_with_timeout(lambda: chain.execute({k: v.copy() for k, v in x.items()}), "MDOParallelChain.execute")
+            data = _run_with_timeout(lambda: chain.execute({k: v.copy() for k, v in x.items()}), "MDOParallelChain.execute", ctx)
             for spec, twin in zip(specs, twins):
                 serial = twin.execute({k: x[k].copy() for k in spec["ins"]})
                 for o in spec["outs"]:
@@ -776,7 +812,7 @@ def case_chain(p, ctx):
                     ctx.check(_same(data[o["name"]], serial[o["name"]], exact=True), "chain_vs_serial",
                               f"{o['name']} of the parallel chain differs from the sequential execution")
             jac = _run_with_timeout(lambda: chain.linearize({k: v.copy() for k, v in x.items()}, compute_all_jacobians=True),
-                                    "MDOParallelChain.linearize")
+                                    "MDOParallelChain.linearize", ctx)
             for spec, twin in zip(specs, twins):
                 serial = twin.linearize({k: x[k].copy() for k in spec["ins"]}, compute_all_jacobians=True)
                 for o in spec["outs"]:
@@ -827,7 +863,7 @@ def case_fd(p, ctx):
         serial = FirstOrderFD(f, step=p["step"])
         parallel = FirstOrderFD(f, step=p["step"], parallel=True, n_processes=p["w"])
         g_ser = serial.f_gradient(x0.copy(), x_indices=p["indices"])
-        g_par = _run_with_timeout(lambda: parallel.f_gradient(x0.copy(), x_indices=p["indices"]), "parallel finite differences")
+        g_par = _run_with_timeout(lambda: parallel.f_gradient(x0.copy(), x_indices=p["indices"]), "parallel finite differences", ctx)
         ctx.check(_same(g_par, g_ser, exact=True), "fd_vs_serial", "parallel and serial finite-difference gradients differ", par=g_par, ser=g_ser)
         cols = p["indices"] or list(range(d))
         exact = poly_jac(out, "x", sizes, {"x": x0})[:, cols]
@@ -843,7 +879,7 @@ def case_fd(p, ctx):
         if p["opt_step"] and not p["scalar"]:
             s_ser = FirstOrderFD(f, step=p["step"]).compute_optimal_step(x0.copy())
             par2 = FirstOrderFD(f, step=p["step"], parallel=True, n_processes=p["w"])
-            s_par = _run_with_timeout(lambda: par2.compute_optimal_step(x0.copy()), "parallel compute_optimal_step")
+            s_par = _run_with_timeout(lambda: par2.compute_optimal_step(x0.copy()), "parallel compute_optimal_step", ctx)
             ctx.check(_same(s_par[0], s_ser[0], exact=True) and _same(s_par[1], s_ser[1], exact=True), "fd_vs_serial",
                       "parallel and serial compute_optimal_step differ", par=s_par, ser=s_ser)
             ctx.cls("fd:optimal_step")
@@ -891,7 +927,7 @@ def case_cache(p, ctx):
     with _Quiet(use_threading):
         cls = DiscParallelLinearization if p["lin"] else DiscParallelExecution
         par = cls(discs, n_processes=p["w"], use_threading=use_threading)
-        out = _run_with_timeout(lambda: par.execute(inputs), "parallel execution with a shared cache")
+        out = _run_with_timeout(lambda: par.execute(inputs), "parallel execution with a shared cache", ctx)
         ctx.check(len(out) == n and all(o is not None for o in out), "cache_results", f"results {out!r}")
         entries = list(cache.get_all_entries())
         ctx.check(len(cache) == len(distinct) and len(entries) == len(distinct), "cache_one_entry_per_input",
@@ -905,7 +941,8 @@ def case_cache(p, ctx):
                           "cache_entry_value", f"cached {o['name']} for input {x} is {entry.outputs.get(o['name'])!r}")
                 if p["lin"]:
                     for nm in ins:
-                        ctx.check(bool(entry.jacobian) and _same(_dense(entry.jacobian[o["name"]][nm]), poly_jac(o, nm, sizes, x), exact=False),
+                        block = (entry.jacobian or {}).get(o["name"], {}).get(nm)
+                        ctx.check(block is not None and _same(_dense(block), poly_jac(o, nm, sizes, x), exact=False),
                                   "cache_entry_value", f"cached d{o['name']}/d{nm} for input {x} is wrong or missing")
     ctx.cls(f"cache:{p['back']}", "cache:lin" if p["lin"] else "cache:exec", "cache:duplicated_inputs" if len(distinct) < n else "cache:all_inputs_distinct")
     if len(distinct) < n and len(distinct) >= 1:
@@ -1024,11 +1061,13 @@ def case_doe(p, ctx):
             call = lambda problem=problem, n_proc=n_proc, kwargs=kwargs: CustomDOE().execute(  # noqa: E731
                 problem, samples=samples, n_processes=n_proc, eval_jac=p["eval_jac"], **kwargs)
             if board is None:
-                _run_with_timeout(call, f"{label} DOE")
+                _run_with_timeout(call, f"{label} DOE", ctx)
             else:
                 box, released, problems, ack_timeouts, leftover = run_gated(
                     call, board, n, min(n_proc, n), p["prio"], acks, [False] * n, False, str(p))
                 ctx.extra["ack_timeouts"] = ctx.extra.get("ack_timeouts", 0) + ack_timeouts
+                ctx.check(not box.get("hung"), "termination", f"the parallel DOE did not return within {EXEC_TIMEOUT}s after every sample "
+                          "had been released", released=released)
                 if "exc" in box:
                     raise box["exc"]
             runs[label] = (problem, log)
